@@ -371,6 +371,222 @@ func (g *genCtx) expr(want VT, d int) *Tree {
 	return g.literal(tInt)
 }
 
+// ---------------------------------------------------------------- targeted classes
+
+func (g *genCtx) kindOf(name string) VT {
+	for _, n := range g.names {
+		if n.Name == name {
+			return n.Kind
+		}
+	}
+	return tInvalid
+}
+
+// need returns a reference to the name, declaring it with the planned kind first.
+func (g *genCtx) need(name string, k VT) *Tree {
+	if g.kindOf(name) == tInvalid {
+		g.names = append(g.names, nameInfo{name, k})
+	}
+	return &Tree{K: "ref", S: name}
+}
+
+// statefulLambda: a lambda variable of the wanted type whose body holds a stateful call
+// (var c = lambda: count() ... used inside another lambda expression).
+func (g *genCtx) statefulLambda(want VT) *Tree {
+	t := g.t
+	cnt := fn("count")
+	var body *Tree
+	switch want {
+	case tInt:
+		body = cnt
+		if rapid.IntRange(0, 2).Draw(t, "lam-int") == 0 {
+			body = bin("*", cnt, &Tree{K: "int", I: 3})
+		}
+	case tFloat:
+		body = fn("float", cnt)
+		if k := rapid.IntRange(0, 2).Draw(t, "lam-float"); k > 0 {
+			if r := g.ref(tFloat); r != nil {
+				body = fn([]string{"", "sigma", "spread"}[k], r)
+			}
+		}
+	case tString:
+		body = fn("string", cnt)
+	case tBool:
+		if rapid.Bool().Draw(t, "lam-bool") {
+			body = bin(">", cnt, &Tree{K: "int", I: int64(rapid.IntRange(1, 3).Draw(t, "lam-k"))})
+		} else {
+			body = bin("==", bin("%", cnt, &Tree{K: "int", I: 2}), &Tree{K: "int", I: 0})
+		}
+	default:
+		body = fn("duration", cnt, &Tree{K: "dur", I: 1e9})
+	}
+	return &Tree{K: "lam", A: []*Tree{body}}
+}
+
+// lambdaHost: a stateless well-typed expression in which one or two sub-expressions, at any
+// position (either operand of an operator, any argument index of a call, under a unary operator,
+// inside another lambda, the root), are replaced by a lambda variable of the same type that holds
+// a stateful call. Positions that are arguments of calls are drawn three times as often.
+func (g *genCtx) lambdaHost() *Tree {
+	t := g.t
+	want := rapid.SampledFrom([]VT{tBool, tInt, tFloat, tString, tDur}).Draw(t, "roottype")
+	g.noState++
+	host := g.expr(want, rapid.IntRange(1, 4).Draw(t, "depth"))
+	g.noState--
+	n := 1
+	if rapid.IntRange(0, 3).Draw(t, "lam-two") == 0 {
+		n = 2
+	}
+	type hole struct {
+		n  *Tree
+		vt VT
+	}
+	for k := 0; k < n; k++ {
+		var holes []hole
+		var rec func(n, parent *Tree, idx int)
+		rec = func(n, parent *Tree, idx int) {
+			if n.K == "lam" && n.hasStateful() {
+				return // a lambda variable placed before
+			}
+			inCall := parent != nil && parent.K == "fn"
+			if !(inCall && (parent.S == "jn" || parent.S == "yn") && idx == 0) { // the order of jn/yn stays a small literal
+				if vt, ok := staticType(n, g.kindOf); ok && oneOf(vt, tInt, tFloat, tString, tBool, tDur) {
+					holes = append(holes, hole{n, vt})
+					if inCall {
+						holes = append(holes, hole{n, vt}, hole{n, vt})
+					}
+				}
+			}
+			for i, a := range n.A {
+				rec(a, n, i)
+			}
+		}
+		rec(host, nil, 0)
+		if len(holes) == 0 {
+			break
+		}
+		h := holes[rapid.IntRange(0, len(holes)-1).Draw(t, "lam-pos")]
+		*h.n = *g.statefulLambda(h.vt)
+	}
+	return host
+}
+
+// failing: every stateful call sits where left-to-right evaluation passes it BEFORE an operation
+// that fails for some VALUES of a well-typed point: it is the left operand of an operator - any
+// cell (operator, left type, right type) of the operator table - whose right operand is a zero-biased
+// divisor "r" (integer and duration / and %) or a conversion of the string "s" (int(), float(), bool(),
+// duration(, 1s), strSubstring(, 0, 1): fails unless the string parses / is long enough), or an
+// earlier argument of a call whose later argument is such a conversion.
+func (g *genCtx) failing() (*Tree, map[string][]VT) {
+	t := g.t
+	forced := map[string][]VT{}
+	lit := func(k string, i int64) *Tree { return &Tree{K: k, I: i} }
+	cnt := fn("count")
+	var left *Tree
+	var lt VT
+	switch g.pick("fleft", 3, 1, 1, 1, 1, 1, 2, 1, 1) {
+	case 0:
+		left, lt = cnt, tInt
+	case 1:
+		left, lt = &Tree{K: "lam", A: []*Tree{cnt}}, tInt
+	case 2:
+		left, lt = bin("-", cnt, lit("int", 1)), tInt
+	case 3:
+		left, lt = fn("sigma", g.need("v", tFloat)), tFloat
+	case 4:
+		left, lt = fn("spread", g.need("v", tFloat)), tFloat
+	case 5:
+		left, lt = fn("float", cnt), tFloat
+	case 6:
+		left, lt = fn("duration", cnt, lit("dur", 1e9)), tDur
+	case 7:
+		left, lt = fn("string", cnt), tString
+	default:
+		left, lt = bin(">", cnt, lit("int", int64(rapid.IntRange(1, 3).Draw(t, "fk")))), tBool
+	}
+	conv := func(k VT) *Tree { // a conversion of "s" that yields the kind, or fails
+		s := g.need("s", tString)
+		switch k {
+		case tInt:
+			return fn("int", s)
+		case tFloat:
+			return fn("float", s)
+		case tBool:
+			return fn("bool", s)
+		case tDur:
+			return fn("duration", s, lit("dur", 1e9))
+		}
+		return fn("strSubstring", s, lit("int", 0), lit("int", 1))
+	}
+	// the cells of the operator table with this left type
+	var cells []opKey
+	for k := range opTable {
+		if k.l == lt && oneOf(k.r, tInt, tFloat, tString, tBool, tDur) && !opUnspec[k] {
+			cells = append(cells, k)
+		}
+	}
+	sort.Slice(cells, func(i, j int) bool {
+		if cells[i].op != cells[j].op {
+			return cells[i].op < cells[j].op
+		}
+		return cells[i].r < cells[j].r
+	})
+	var divs []opKey // cells that fail on a zero right operand
+	for _, k := range cells {
+		if (k.op == "/" || k.op == "%") && oneOf(k.r, tInt, tDur) {
+			divs = append(divs, k)
+		}
+	}
+	var core *Tree
+	var ct VT
+	kind := g.pick("fkind", 2, 3, 1)
+	switch {
+	case kind == 0 && len(divs) > 0:
+		k := divs[rapid.IntRange(0, len(divs)-1).Draw(t, "fdiv")]
+		forced["r"] = []VT{k.r}
+		core, ct = bin(k.op, left, g.need("r", k.r)), opTable[k]
+	case kind == 2 && oneOf(lt, tInt, tFloat, tString): // argument order of a call
+		switch lt {
+		case tInt:
+			core, ct = fn("duration", left, conv(tDur)), tDur
+		case tFloat:
+			core, ct = fn(rapid.SampledFrom(math2Names).Draw(t, "m2"), left, conv(tFloat)), tFloat
+		default:
+			core, ct = fn(rapid.SampledFrom(str2boolNames).Draw(t, "s2b"), left, conv(tString)), tBool
+		}
+	default:
+		k := cells[rapid.IntRange(0, len(cells)-1).Draw(t, "fcell")]
+		core, ct = bin(k.op, left, conv(k.r)), opTable[k]
+	}
+	switch rapid.IntRange(0, 3).Draw(t, "fwrap") {
+	case 1:
+		core = &Tree{K: "lam", A: []*Tree{core}}
+	case 2:
+		if oneOf(ct, tInt, tFloat, tDur, tBool) {
+			core = fn("string", core)
+		}
+	}
+	return core, forced
+}
+
+// biasVals: values that make the failing operation of the class fail (zero divisors, strings that do
+// not parse) or succeed with small operands, drawn two times out of three.
+func biasVals(class, name string, k VT) []SV {
+	if class != "stateful-before-failure" {
+		return nil
+	}
+	switch {
+	case name == "r" && k == tInt:
+		return []SV{{T: "int"}, {T: "int"}, {T: "int", I: 1}, {T: "int", I: 2}, {T: "int", I: 3}, {T: "int", I: -1}}
+	case name == "r" && k == tDur:
+		return []SV{{T: "dur"}, {T: "dur"}, {T: "dur", I: 1}, {T: "dur", I: 2}, {T: "dur", I: 1e9}}
+	case name == "s" && k == tString:
+		return []SV{{T: "string", S: "1"}, {T: "string", S: "0"}, {T: "string", S: "2"}, {T: "string", S: "3"}, {T: "string", S: "-7"}, {T: "string", S: "1.5"},
+			{T: "string", S: "1s"}, {T: "string", S: "10ms"}, {T: "string", S: "abc"}, {T: "string", S: ""}}
+	}
+	return nil
+}
+
 var allOps = []string{"+", "-", "*", "/", "%", "AND", "OR", "==", "!=", "<", "<=", ">", ">=", "=~", "!~"}
 var litKinds = []VT{tInt, tFloat, tString, tBool, tDur, tRegex}
 
